@@ -51,6 +51,26 @@ func Called(s string) bool { return false }
 // CallCount is the number of calls on this path whose name contains s.
 func CallCount(s string) int { return 0 }
 
+// Exists / Forall: bounded quantifiers over lo <= k < hi; f must be a
+// side-effect-free function literal.
+func Exists(lo, hi int, f func(k int) bool) bool {
+	for k := lo; k < hi; k++ {
+		if f(k) {
+			return true
+		}
+	}
+	return false
+}
+
+func Forall(lo, hi int, f func(k int) bool) bool {
+	for k := lo; k < hi; k++ {
+		if !f(k) {
+			return false
+		}
+	}
+	return true
+}
+
 // CallCountWith: number of matching calls whose i-th argument is v (and, for
 // CallCountWith2, whose j-th argument is w as well).
 func CallCountWith[T any](s string, i int, v T) int                  { return 0 }
